@@ -143,7 +143,7 @@ class HarnessBuild:
             body = '\n'.join(txt)
             for mname in missing:
                 if ('@' + mname) not in body and ('@"' + mname + '"') not in body:
-                    raise Inconclusive('override %s not present in IR of %s' % (mname, self.hname))
+                    overrides.remove(mname)   # not used by this harness
             open(raw, 'w').write(body)
         rc, out, w, _, to = run(['opt-14'] + OPT_FLAGS + [raw, '-o', ll], timeout=600)
         if rc != 0: raise Inconclusive('opt failed for %s:\n%s' % (self.hname, out[-3000:]))
@@ -177,6 +177,8 @@ class HarnessBuild:
         rc, out, w, _, to = run(cmd, timeout=900)
         if rc != 0 or not os.path.exists(gb):
             raise Inconclusive('goto-cc failed for %s:\n%s' % (self.hname, out[-3000:]))
+        if 'is not declared' in out:
+            raise Inconclusive('goto-cc: implicit function declaration in %s:\n%s' % (self.hname, '\n'.join(l for l in out.split('\n') if 'is not declared' in l)[:1500]))
         self.gb[key] = gb
     def build_native(self):
         with self.lock:
@@ -213,7 +215,8 @@ TYPEMAP = {'uint8_t': 'u8', 'uint16_t': 'u16', 'uint32_t': 'u32', 'uint64_t': 'u
            'unsigned char': 'u8', 'unsigned short': 'u16', 'unsigned int': 'u32', 'unsigned long': 'u64',
            'unsigned long int': 'u64', 'unsigned short int': 'u16'}
 FN2TY = {'nondet_u8': 'u8', 'nondet_u16': 'u16', 'nondet_u32': 'u32', 'nondet_u64': 'u64', 'nondet_double': 'f64',
-         'nondet_float': 'f32', 'nondet_bool': 'u8'}
+         'nondet_float': 'f32', 'nondet_bool': 'u8', 'nondet_model_u8': 'mu8', 'nondet_model_u32': 'mu32',
+         'nondet_model_u64': 'mu64', 'nondet_model_double': 'mf64'}
 
 def trace_vector(trace):
     vec = []
@@ -273,16 +276,16 @@ def cbmc_cmd(gb, q, reach):
     if reach:
         base = ['--drop-unused-functions', '--no-malloc-may-fail', '--json-ui', '--no-standard-checks']
     cmd += base
-    if q.get('unwindset'):
-        # keys are substrings of loop ids (mangled function name + .N); longest match wins
-        us = {}
-        for lid in loops_of(gb):
-            best = None
-            for pat, n in q['unwindset'].items():
-                if pat in lid and (best is None or len(pat) > len(best[0])): best = (pat, n)
-            if best: us[lid] = best[1]
-        if us: cmd += ['--unwindset', ','.join('%s:%d' % kv for kv in us.items())]
-    cmd += ['--unwind', str(q.get('unwind', 2))]
+    # every loop gets an explicit bound: q['unwind'] by default, q['unwindset'] (substring of the loop id ->
+    # bound, longest match wins) where given; the global --unwind then only governs recursion depth
+    us = {}
+    for lid in loops_of(gb):
+        best = None
+        for pat, n in (q.get('unwindset') or {}).items():
+            if pat in lid and (best is None or len(pat) > len(best[0])): best = (pat, n)
+        us[lid] = best[1] if best else q.get('unwind', 2)
+    if us: cmd += ['--unwindset', ','.join('%s:%d' % kv for kv in us.items())]
+    cmd += ['--unwind', str(q.get('rec_unwind', 2))]
     if reach or q.get('no_unwinding_assertions'):
         if '--unwinding-assertions' in cmd: cmd.remove('--unwinding-assertions')
         if not reach: cmd.append('--no-unwinding-assertions') if False else None
@@ -375,7 +378,8 @@ def run_query(spec, hb, q, args, known):
         wvec = trace_vector(witness.get('trace', []))
         if not args.no_native and not q.get('no_native'):
             code, out = hb.replay(q['entry'], wvec, os.path.join(hb.dir, 'w_%s.vec' % name))
-            if code != 0 or ('consumed=%d of %d' % (len(wvec), len(wvec))) not in out:
+            full = ('consumed=%d of %d' % (len(wvec), len(wvec))) in out
+            if code != 0 or not full:
                 qr.verdict = 'INCONCLUSIVE'
                 qr.detail = 'witness trace does not replay on the native build (encoding/model mismatch): exit %d: %s' % (code, out[-800:])
                 return qr
